@@ -132,6 +132,7 @@ def cleanup():
 SCENARIO_BY_OBLIGATION = {
     ("C13", "O13.2/no_silent_fallback"): ["fallback-snapshot"],
     ("C13", "O13.3/midframe_eof"): ["midframe-eof"],
+    ("C13", "O13.6/manifest_keys"): ["manifest-key-flip"],
     ("C01", "O1.5/crash_window"): ["crash-after-unlink"],
     ("C01", "O1.3/periodic_idle"): ["periodic-idle"],
     ("C03", "O3.1/pinned"): ["failed-overwrite", "nan"],
